@@ -121,6 +121,16 @@ CHECKS["C10"] = (
     "DESIGN.md section 3, C10",
 )
 
+CHECKS["C07"] = (
+    "bounded-exhaustive enumeration of programs x configurations with repeated application and fault-point enumeration, on the implementation",
+    "Every module of a program alphabet (7 definition kinds x 12 header shapes x 6 docstring shapes x bodies; all ordered pairs over a "
+    "14-definition sub-alphabet with equal or distinct names) x 12 configurations is run through doctrans up to three times; after each run "
+    "the result must parse, equal the original after erasing docstrings/annotations, keep its comment tokens and all other lines; an "
+    "exception is injected at the first entry of every cdd function a clean run enters and the file must then be byte-identical.",
+    "erasure and line classification in mc/checks/c07.py; termination here is only a wall-clock backstop (C11 decides it with a step budget)",
+    "DESIGN.md section 3, C07",
+)
+
 PENDING_REASON = "check not built yet in this revision (planned, see DESIGN.md section 3); no claim is made"
 
 
